@@ -33,7 +33,16 @@ EmptySeq == [t |-> "q", e |-> <<>>]
 F(name, key, aliases, role, type) == [name |-> name, key |-> key, aliases |-> aliases, role |-> role, type |-> type]
 Structs ==
     [ sub    |-> << F("X", "x", <<>>, "plain", "string"), F("Y", "y", <<>>, "plain", "int") >>,
-      inl    |-> << F("P", "p", <<>>, "plain", "string"), F("Q", "q", <<>>, "plain", "int") >> ]
+      inl    |-> << F("P", "p", <<>>, "plain", "string"), F("Q", "q", <<>>, "plain", "int") >>,
+      \* the structs of the pipeline object model (fields whose own UnmarshalOrdered reshapes the value are "any" here)
+      cmdouter |-> << F("Commands", "commands", <<"command">>, "plain", "any"), F("Rem", "", <<>>, "inline", "struct:cmdinner") >>,
+      cmdinner |-> << F("Key", "key", <<"id", "identifier">>, "plain", "any"), F("Label", "label", <<"name">>, "plain", "any"),
+                      F("Command", "command", <<>>, "plain", "any"), F("Plugins", "plugins", <<>>, "plain", "any"),
+                      F("Env", "env", <<>>, "plain", "any"), F("Signature", "signature", <<>>, "plain", "any"),
+                      F("Matrix", "matrix", <<>>, "plain", "any"), F("Cache", "cache", <<>>, "plain", "any"),
+                      F("RemainingFields", "", <<>>, "inline", "inline_map") >>,
+      group  |-> << F("Key", "key", <<"id", "identifier">>, "plain", "any"), F("Group", "group", <<"label", "name">>, "plain", "any"),
+                    F("Steps", "steps", <<>>, "plain", "any"), F("RemainingFields", "", <<>>, "inline", "inline_map") >> ]
 FieldPool ==
     [ f_name  |-> F("Name", "name", <<"label", "title">>, "plain", "string"),
       f_count |-> F("Count", "count", <<"n">>, "plain", "int"),
@@ -50,8 +59,9 @@ FieldPool ==
       i_map   |-> F("Rest", "", <<>>, "inline", "inline_map"),
       i_str   |-> F("RestS", "", <<>>, "inline", "struct:inl") ]
 
-IsStructType(t) == t \in {"struct:sub", "struct:inl", "ptr:sub"}
-StructOf(t) == IF t = "struct:inl" THEN Structs.inl ELSE Structs.sub
+StructTypes == {"struct:sub", "struct:inl", "struct:cmdinner"}
+IsStructType(t) == t \in StructTypes \cup {"ptr:sub"}
+StructOf(t) == CASE t = "struct:inl" -> Structs.inl [] t = "struct:cmdinner" -> Structs.cmdinner [] OTHER -> Structs.sub
 
 (* ---------------- documents ---------------- *)
 DocKeys(doc) == {doc[i][1] : i \in 1..Len(doc)}
@@ -63,8 +73,8 @@ Zero(type) ==
       [] OTHER -> Null                  \* any, slices, maps, pointers: nil
 RECURSIVE ZeroStruct(_)
 ZeroStruct(desc) == [t |-> "m", kv |-> [i \in 1..Len(desc) |->
-                        <<desc[i].name, IF desc[i].type \in {"struct:sub", "struct:inl"} THEN ZeroStruct(StructOf(desc[i].type)) ELSE Zero(desc[i].type)>>]]
-ZeroOf(type) == IF type \in {"struct:sub", "struct:inl"} THEN ZeroStruct(StructOf(type)) ELSE Zero(type)
+                        <<desc[i].name, IF desc[i].type \in StructTypes THEN ZeroStruct(StructOf(desc[i].type)) ELSE Zero(desc[i].type)>>]]
+ZeroOf(type) == IF type \in StructTypes THEN ZeroStruct(StructOf(type)) ELSE Zero(type)
 FieldOf(dst, name) == Get(dst, name)
 
 (* =============== rule-shaped =============== *)
@@ -78,7 +88,7 @@ Consumed(desc, keys) == {Chosen(desc[i], keys) : i \in {j \in 1..Len(desc) : des
 RECURSIVE Expect(_, _, _), ExpectValue(_, _, _)
 \* value v (not null) arriving at a destination of the given type that currently holds cur
 ExpectValue(type, v, cur) ==
-    CASE type \in {"struct:sub", "struct:inl"} -> Expect(StructOf(type), AsDoc(v), cur)
+    CASE type \in StructTypes -> Expect(StructOf(type), AsDoc(v), cur)
       [] type = "ptr:sub" -> Expect(Structs.sub, AsDoc(v), IF cur = Null THEN ZeroStruct(Structs.sub) ELSE cur)
       [] type = "slice_string" -> v
       [] OTHER -> v
@@ -105,7 +115,7 @@ Expect(desc, doc, dst) ==
 AliasList(f) == IF Len(f.aliases) = 0 THEN (IF FixEmptyAlias THEN <<>> ELSE <<"">>) ELSE f.aliases   \* strings.Split("", ",") = [""]
 RECURSIVE DecodeImpl(_, _, _), FieldLoop(_, _, _, _, _, _), ImplValue(_, _, _)
 ImplValue(type, v, cur) ==
-    CASE type \in {"struct:sub", "struct:inl"} -> DecodeImpl(StructOf(type), AsDoc(v), cur)
+    CASE type \in StructTypes -> DecodeImpl(StructOf(type), AsDoc(v), cur)
       [] type = "ptr:sub" -> DecodeImpl(Structs.sub, AsDoc(v), IF cur = Null THEN ZeroStruct(Structs.sub) ELSE cur)
       [] type = "slice_any" -> (IF v = EmptySeq /\ cur = Null /\ ~FixEmptySliceAny THEN Null ELSE v)    \* append(nil, empty...) is nil
       [] OTHER -> v
